@@ -501,7 +501,7 @@ func init() {
 	harness.Register(&harness.Check{
 		ID:    "C11",
 		Level: "exploration",
-		Rule: "generated profiles with 0..3 inline lines per location (match at every line position), locations shared between samples as cut point / rootward / leafward, matches at root and leaf, keep overrides, unnamed and unsymbolized frames, C++ names needing simplification; 7 drop/keep expression pairs; through Prune, RemoveUninteresting (profile-embedded expressions) and PruneFrom, and through the real driver (profile-embedded drop_frames/keep_frames applied at fetch, -prune_from at report time, observed with -proto). " +
+		Rule: "generated profiles with 0..3 inline lines per location (match at every line position), location ids distinct but neither dense nor ordered (values just above the table size included), locations shared between samples as cut point / rootward / leafward, matches at root and leaf, keep overrides, unnamed and unsymbolized frames, C++ names needing simplification; 7 drop/keep expression pairs; through Prune, RemoveUninteresting (profile-embedded expressions) and PruneFrom, and through the real driver (profile-embedded drop_frames/keep_frames applied at fetch, -prune_from at report time, observed with -proto). " +
 			"oracle: frame-level reference written from the statement; sample count, values, labels unchanged; never empties a sample; no expressions => fingerprint unchanged. Deviation of the listed known finding is accepted only inside its input class and only if the output equals the deviation model. non-trivial = every case; distinct = (expressions, profile text length)",
 		Assumptions: []string{"a frame without function name never matches", "within a location Line[0] is the leaf-most inlined frame"},
 		Parts: []harness.Part{
